@@ -1,7 +1,27 @@
 /-
   Helper lemmas for the fusion operators (src/mul.rs:488-737; SLV/Model/Fuse.lean):
   arm-by-arm closed forms of `computeSimplex`, `computeBaseRate` and `fuse` on lifted rational inputs.
-  No property statements here (those are in SLV/Props/C02.lean, C03.lean, …).
+  No property statements here (those are in SLV/Props/C02.lean, C03.lean, …).   ε = f.eps.
+
+  INDEX
+  guards        `GDog f u` (|u| ≤ ε), `GVac f u` (1-2ε ≤ u ≤ 1+4ε), `Plain f u` (u = 0 ∨ u = 1 ∨ ε < u < 1-2ε),
+                `PlainD f u` (u = 0 ∨ ε < u); `Plain.GDog_iff`, `Plain.GVac_iff`, `GDog_iff`, `GVac_iff`.
+  simplexes     `SWF b u` (b ≥ 0, u ≥ 0, Σb + u = 1), `WF.swf`, `SWF.toWF`, `normalized_liftT(_one)`.
+  closed forms  `FuseQ.dogB`, `acmB/acmU`, `avgB/avgU`, `wghB/wghU`, `meanA`, `acmA`, `wghA`,
+                `sc` (per-entry `ulps_eq!`, opaque), `short` (shortcut), and the guard ladders
+                `FuseQ.simplexQ`, `FuseQ.baseRateQ`, `FuseQ.fuseQ` (all operators, all arms).
+  arms          `computeSimplex_both_dog / _acm_formula / _avg_formula / _wgh_formula / _both_vac / _right /
+                _left / _avg_left / _avg_right`;  `computeBaseRate_same / _both_dog / _avg / _both_vac /
+                _acm_right / _acm_left / _acm_formula / _wgh_right / _wgh_left / _wgh_formula`; `brEntry_fin`.
+  total lifts   `computeSimplex_lift`, `computeBaseRate_lift`, `fuse_lift` (op ≠ ECm), `fuse_ecm_lift`
+                (fused base rate a distribution), `fuse_ecm_lift_gen`, `fuse_lift_all` (= `fuseQ`, always).
+  algebra       `acm_sum/avg_sum/wgh_sum` (normaliser = 1), `acm_swf/avg_swf/wgh_swf/dog_swf`, `simplexQ_swf`;
+                `IsMix`, `Weights`, `baseRateQ_shape/_between/_of_eq/_sum/_sum_bound/_nonneg/_sum_pos/_dist/_same`.
+  plain inputs  `simplexQ0`, `baseRateQ0`, `simplexQ_plain`, `baseRateQ_plain`; the short ideal forms
+                `FuseQ.idealS`, `FuseQ.idealA`, `simplexQ_plain_ideal`, `baseRateQ_plain_ideal`, `fuse_plain`,
+                `fuse_plain_ecm`, `idealS_swf`, `ideal_dist`.
+  bands         `simplexQ_vac_left/right`, `baseRateQ_vac_left/right`, `fuseQ_vac_left/right`,
+                `simplexQ_avg_plainD`, `baseRateQ_avg_plainD`.
 -/
 import SLV.Refine.Lift
 import SLV.Refine.C10Lemmas
@@ -1412,7 +1432,7 @@ theorem simplexQ_vac_right {op : FuseOp} (hop : op ≠ .avg) (b1 b2 : Fin n → 
   have nd1 : ¬ GDog f 1 := not_GDog_one
   have vv : GVac f 1 := GVac_one
   unfold simplexQ
-  cases op <;> first | exact absurd rfl hop | simp [nd, nd1, v2, vv]
+  cases op <;> first | exact absurd rfl hop | (simp [nd, nd1, v2, vv]; split_ifs <;> rfl)
 
 theorem baseRateQ_vac_left {op : FuseOp} (hop : op ≠ .avg) (same : Bool) (a1 a2 : Fin n → ℚ) {u1 : ℚ}
     (u2 : ℚ) (v1 : GVac f u1) : baseRateQ f op same a1 u1 a2 u2 = baseRateQ f op same a1 1 a2 u2 := by
